@@ -513,7 +513,9 @@ func StartProxyOpts(name string, opts ProxyOpts) (*Proxy, error) {
 	}
 	if opts.ConnectHeaderCallback {
 		rt.GetProxyConnectHeader = func(context.Context, *url.URL, string) (http.Header, error) {
-			return make(http.Header), nil
+			// non-empty, like command/run with one --connect-header Add rule: the dialer must merge it with the
+			// client's (modified) CONNECT header, not replace that header by it
+			return http.Header{"X-Connect-Header": {"from-callback"}}, nil
 		}
 	}
 	hp, err := forwarder.NewHTTPProxy(cfg, nil, opts.Credentials, rt, log.NopLogger, nil)
